@@ -19,7 +19,9 @@ META = dict(
                'string manipulations of the code; binary64 via Flocq bit layout; binary32 via an integer model '
                'of the C casts (round trip proved for every non-signalling 32-bit pattern, signalling NaNs '
                'refuted = recorded finding, overflow refusal proved); MJD calendar part by a kernel sweep of '
-               'all 109573 days 1900..2199 on primitive floats. The models are compared with the real '
+               'all 109573 days 1900..2199 on primitive floats; str-based variants proved equal to the bytes-based ones on '
+               'latin-1 strings and refusing wider code points; signed/unsigned/twos/bit-string readings of the same '
+               'bytes proved consistent; day_microseconds/day_milliseconds modelled. The models are compared with the real '
                'functions (exhaustive 1-byte domains, boundary values, seeded random inputs, bit-exact floats) '
                'on every run. Partial: the sub-day (microsecond) MJD bound is proved over the reals under four named '
                'premises about binary64 rounding and repr/float (C09_mjd_microsecond_bound_partial); the premises '
@@ -202,6 +204,51 @@ def gen_cases(ctx):
     for b in (b'', b'abc', b'abcde'):
         add('bytes_to_real32', 'CBytesToReal32 %s true None' % zlist(b), b, False)
         assert call(U.bytes_to_real, b, 1, True) is None
+    # str-based variants: latin-1 strings (every single code point, random strings) and strings with a
+    # code point above 255 (refused by encode('latin-1')); encoders on the same values as above
+    strs = [chr(b) for b in range(256)] + ['', '\u0100', 'a\u0100', '\u20ac\x00', '\xff\u0101\xff', '\U0001f600']
+    for _ in range(80 * N):
+        k = rng.choice([1, 2, 3, 4, 5, 8])
+        s = ''.join(chr(rng.randrange(256)) for _ in range(k))
+        strs.append(s)
+        if rng.random() < 0.15:
+            i = rng.randrange(k)
+            strs.append(s[:i] + chr(rng.choice([256, 257, 0x3b1, 0xffff])) + s[i + 1:])
+    for s in strs:
+        cps = zlist([ord(c) for c in s])
+        for le in (True, False):
+            out = call(U.string_to_int, s, le)
+            add('string_to_int', 'CStringToInt %s %s %s' % (cps, blit(le), optlit(out)), (s, le), out is not None)
+            out = call(U.string_to_uint, s, le)
+            add('string_to_uint', 'CStringToUint %s %s %s' % (cps, blit(le), optlit(out)), (s, le), out is not None)
+            out = call(U.string_to_binary, s, le)
+            add('string_to_binary', 'CStringToBinary %s %s %s' % (cps, blit(le), optlit(out, blist)), (s, le),
+                out is not None)
+    for _ in range(60 * N):
+        s = rbits(rng.choice([0, 8, 16, 24, 32, 64, 5, 13, 17]))
+        le = rng.random() < 0.5
+        out = U.binary_to_string(s, le)
+        add('binary_to_string', 'CBinaryToString %s %s %s' % (blist(s), blit(le), zlist([ord(c) for c in out])), (s, le))
+    for v, n in ivals[::3]:
+        for le in (True, False):
+            out = call(U.int_to_string, v, n, le)
+            add('int_to_string', 'CIntToString %s %s %s %s'
+                % (zlit(v), natlit(n), blit(le), optlit(None if out is None else [ord(c) for c in out], zlist)),
+                (v, n, le), out is not None)
+            out = call(U.uint_to_string, v, n, le)
+            add('uint_to_string', 'CUintToString %s %s %s %s'
+                % (zlit(v), natlit(n), blit(le), optlit(None if out is None else [ord(c) for c in out], zlist)),
+                (v, n, le), out is not None)
+    # time of day
+    times = [(0, 0, 0, 0), (23, 59, 59, 999999), (23, 59, 59, 999500), (23, 59, 59, 999499), (0, 0, 0, 500),
+             (0, 0, 0, 1500), (0, 0, 0, 2500), (12, 0, 0, 499), (12, 0, 0, 501), (1, 1, 1, 1)]
+    for _ in range(120 * N):
+        times.append((rng.randrange(24), rng.randrange(60), rng.randrange(60),
+                      rng.choice([rng.randrange(10 ** 6), 500 + 1000 * rng.randrange(999), 1000 * rng.randrange(1000)])))
+    for (h, mi, s, us) in times:
+        d = datetime(2021, 3, 4, h, mi, s, us)
+        add('day_microseconds', 'CDayUs %d %d %d %d %s' % (h, mi, s, us, zlit(U.day_microseconds(d))), (h, mi, s, us))
+        add('day_milliseconds', 'CDayMs %d %d %d %d %s' % (h, mi, s, us, zlit(U.day_milliseconds(d))), (h, mi, s, us))
     return cases
 
 
@@ -340,6 +387,14 @@ def oracle(ctx):
                         b=b.hex(), le=le)
                 if call(U.int_to_twos, U.twos_to_int(bits), n) != bits:
                     bad('twos_roundtrip2', 'int_to_twos(twos_to_int(s)) != s', s=bits)
+    # str variants: a code point above 255 is refused, never truncated to its low byte
+    for s in ('\u0100', 'a\u0101', '\u20ac\x00', '\xff\u0141\xff', '\U0001f600'):
+        for le in (True, False):
+            checked += 1
+            for f in (U.string_to_int, U.string_to_uint, U.string_to_binary):
+                if call(f, s, le) is not None:
+                    bad('string_wide_not_refused', '%s accepted a code point above 255' % f.__name__,
+                        s=[ord(c) for c in s], le=le)
     # checksum
     for _ in range(400 * N):
         m = ''.join(chr(rng.randrange(256)) for _ in range(rng.randrange(0, 64)))
